@@ -124,12 +124,15 @@ pub open spec fn in_rect(cx: int, cy: int, x0: int, y0: int, w: int, h: int) -> 
     x0 <= cx < x0 + w && y0 <= cy < y0 + h
 }
 
-pub open spec fn raw_cel_pixel(old_img: &RgbaImage, cel: &CelCommon, size: &ImageSize, pixels: Seq<Rgba<u8>>, mode: BlendMode, outer: u8, cx: int, cy: int) -> Rgba<u8> {
+pub open spec fn raw_px(b: Rgba<u8>, cel: &CelCommon, size: &ImageSize, pixels: Seq<Rgba<u8>>, mode: BlendMode, outer: u8, cx: int, cy: int) -> Rgba<u8> {
     if in_rect(cx, cy, cel.x as int, cel.y as int, size.width as int, size.height as int) {
-        spec_blend(mode, old_img.at(cx, cy), pixels[(cy - cel.y) * size.width + (cx - cel.x)], spec_round8(outer as int, cel.opacity as int) as u8)
+        spec_blend(mode, b, pixels[(cy - cel.y) * size.width + (cx - cel.x)], spec_round8(outer as int, cel.opacity as int) as u8)
     } else {
-        old_img.at(cx, cy)
+        b
     }
+}
+pub open spec fn raw_cel_pixel(old_img: &RgbaImage, cel: &CelCommon, size: &ImageSize, pixels: Seq<Rgba<u8>>, mode: BlendMode, outer: u8, cx: int, cy: int) -> Rgba<u8> {
+    raw_px(old_img.at(cx, cy), cel, size, pixels, mode, outer, cx, cy)
 }
 // @end
 
@@ -343,12 +346,15 @@ pub open spec fn tm_src_index(cel: &CelCommon, tm: &TilemapData, ts: &Tileset, c
     let dy = cy - cel.y;
     (tm.tiles.0[(dy / th) * (tm.width as int) + dx / tw].id.0 as int) * (tw * th) + (dy % th) * tw + dx % tw
 }
-pub open spec fn tm_cel_pixel(old_img: &RgbaImage, cel: &CelCommon, tm: &TilemapData, ts: &Tileset, pixels: Seq<Rgba<u8>>, mode: BlendMode, outer: u8, cx: int, cy: int) -> Rgba<u8> {
+pub open spec fn tm_px(b: Rgba<u8>, cel: &CelCommon, tm: &TilemapData, ts: &Tileset, pixels: Seq<Rgba<u8>>, mode: BlendMode, outer: u8, cx: int, cy: int) -> Rgba<u8> {
     if tm_covered(cel, tm, ts, cx, cy) {
-        spec_blend(mode, old_img.at(cx, cy), pixels[tm_src_index(cel, tm, ts, cx, cy)], spec_round8(outer as int, cel.opacity as int) as u8)
+        spec_blend(mode, b, pixels[tm_src_index(cel, tm, ts, cx, cy)], spec_round8(outer as int, cel.opacity as int) as u8)
     } else {
-        old_img.at(cx, cy)
+        b
     }
+}
+pub open spec fn tm_cel_pixel(old_img: &RgbaImage, cel: &CelCommon, tm: &TilemapData, ts: &Tileset, pixels: Seq<Rgba<u8>>, mode: BlendMode, outer: u8, cx: int, cy: int) -> Rgba<u8> {
+    tm_px(old_img.at(cx, cy), cel, tm, ts, pixels, mode, outer, cx, cy)
 }
 /// loop bookkeeping: has the rasteriser already passed canvas pixel (cx, cy) when it stands at
 /// tile row ty, tile column tx, pixel row py, pixel column px (lexicographic order of the four loops)?
@@ -460,5 +466,202 @@ pub proof fn lemma_tm_carry_all(cel: &CelCommon, tm: &TilemapData, ts: &Tileset,
         tm_done(cel, tm, ts, cx, cy, ty, tm.width as int, 0, 0) == tm_done(cel, tm, ts, cx, cy, ty + 1, 0, 0, 0) by { lemma_tm_carry(cel, tm, ts, cx, cy, ty, tx, py); }
     assert forall|cx: int, cy: int| !(#[trigger] tm_done(cel, tm, ts, cx, cy, 0, 0, 0, 0)) by { lemma_tm_carry(cel, tm, ts, cx, cy, ty, tx, py); }
     assert forall|cx: int, cy: int| #[trigger] tm_done(cel, tm, ts, cx, cy, tm.height as int, 0, 0, 0) == tm_covered(cel, tm, ts, cx, cy) by { lemma_tm_carry(cel, tm, ts, cx, cy, ty, tx, py); }
+}
+// @end
+
+// @section compose_shims
+/// shim for pixel::Pixels: opaque here; `rgba()` is the RGBA sequence that clone_as_image_rgba returns
+/// (ASSUMED contract: clone_as_image_rgba is a function of self and does not panic – the per-pixel conversions it
+/// maps over are the Verus obligations v_indexed_as_rgba / v_gray_into_rgba, validation is v_validate_indexed;
+/// the iterator chain itself is executed by the bounded obligation x_frames_vs_spec)
+#[verifier::external_body]
+pub struct Pixels { _p: core::marker::PhantomData<u8> }
+#[verifier::external_body]
+pub struct RgbaCow<'a> { _p: core::marker::PhantomData<&'a u8> }
+impl<'a> RgbaCow<'a> {
+    pub uninterp spec fn view(&self) -> Seq<Rgba<u8>>;
+    /// Cow<Vec<Rgba<u8>>>::as_ref, followed by the deref coercion &Vec<T> -> &[T] at the call site
+    #[verifier::external_body]
+    pub fn as_ref(&self) -> (r: &[Rgba<u8>])
+        ensures r@ == self.view(),
+    { unimplemented!() }
+}
+impl Pixels {
+    pub uninterp spec fn rgba(&self) -> Seq<Rgba<u8>>;
+    #[verifier::external_body]
+    pub fn clone_as_image_rgba(&self) -> (r: RgbaCow<'_>)
+        ensures r.view() == self.rgba(),
+    { unimplemented!() }
+}
+/// shim for TilesetsById (a HashMap newtype): `get` is a map lookup (ASSUMED contract of std HashMap)
+#[verifier::external_body]
+pub struct TilesetsById { _p: core::marker::PhantomData<u8> }
+impl TilesetsById {
+    pub uninterp spec fn map(&self) -> Map<u32, Tileset>;
+    #[verifier::external_body]
+    pub fn get(&self, id: u32) -> (r: Option<&Tileset>)
+        ensures
+            (r is Some) == self.map().dom().contains(id),
+            r is Some ==> *(r->0) == self.map()[id],
+    { unimplemented!() }
+}
+impl RgbaImage {
+    /// image::ImageBuffer::new: zero-initialised buffer of the given size (ASSUMED contract of a dependency)
+    #[verifier::external_body]
+    pub fn new(width: u32, height: u32) -> (r: RgbaImage)
+        ensures r.w() == width, r.h() == height,
+            forall|x: int, y: int| #[trigger] r.at(x, y) == Rgba([0u8, 0u8, 0u8, 0u8]),
+    { unimplemented!() }
+}
+// @end
+
+// @section compose_spec
+impl CelsData {
+    pub open spec fn at(&self, f: int, l: int) -> Option<RawCel> {
+        if 0 <= f < self.data.len() && 0 <= l < self.data[f].len() { self.data[f][l] } else { None }
+    }
+}
+/// the cels of one frame in increasing layer order, each with its layer id: what CelsData::frame_cels yields
+pub open spec fn cels_of(row: Seq<Option<RawCel>>) -> Seq<(u32, RawCel)>
+    decreases row.len(),
+{
+    if row.len() == 0 {
+        Seq::empty()
+    } else {
+        let rest = cels_of(row.drop_last());
+        match row.last() {
+            Some(c) => rest.push(((row.len() - 1) as u32, c)),
+            None => rest,
+        }
+    }
+}
+pub proof fn lemma_cels_of(row: Seq<Option<RawCel>>)
+    requires row.len() <= 0xffff_ffff,
+    ensures forall|k: int| 0 <= k < cels_of(row).len() ==> {
+        let e = #[trigger] cels_of(row)[k];
+        0 <= (e.0 as int) < row.len() && row[e.0 as int] == Some(e.1)
+    },
+    decreases row.len(),
+{
+    if row.len() > 0 {
+        lemma_cels_of(row.drop_last());
+        assert forall|k: int| 0 <= k < cels_of(row).len() implies {
+            let e = #[trigger] cels_of(row)[k];
+            0 <= (e.0 as int) < row.len() && row[e.0 as int] == Some(e.1)
+        } by {
+            let rest = cels_of(row.drop_last());
+            if k < rest.len() {
+                assert(cels_of(row)[k] == rest[k]);
+                assert(row.drop_last()[rest[k].0 as int] == row[rest[k].0 as int]);
+            }
+        }
+    }
+}
+/// iterator returned by CelsData::frame_cels (TRUSTED shim for `self.data[frame].iter().enumerate().filter_map(..)`:
+/// yields exactly cels_of(row) in order; executed against this spec by the bounded obligation x_frame_cels_contract)
+#[verifier::external_body]
+pub struct FrameCels<'a> { _p: core::marker::PhantomData<&'a u8> }
+pub uninterp spec fn frame_cels_rem<'a>(it: FrameCels<'a>) -> Seq<(u32, &'a RawCel)>;
+impl<'a> Iterator for FrameCels<'a> {
+    type Item = (u32, &'a RawCel);
+    #[verifier::external_body]
+    fn next(&mut self) -> Option<(u32, &'a RawCel)> { unimplemented!() }
+}
+impl<'a> vstd::std_specs::iter::IteratorSpecImpl for FrameCels<'a> {
+    open spec fn obeys_prophetic_iter_laws(&self) -> bool { true }
+    open spec fn remaining(&self) -> Seq<(u32, &'a RawCel)> { frame_cels_rem(*self) }
+    open spec fn will_return_none(&self) -> bool { true }
+    open spec fn decrease(&self) -> Option<nat> { Some(frame_cels_rem(*self).len()) }
+    open spec fn peek(&self, i: int) -> Option<(u32, &'a RawCel)> {
+        if 0 <= i < frame_cels_rem(*self).len() { Some(frame_cels_rem(*self)[i]) } else { None }
+    }
+}
+pub open spec fn fc_matches(rem: Seq<(u32, &RawCel)>, cels: Seq<(u32, RawCel)>) -> bool {
+    rem.len() == cels.len() && forall|k: int| 0 <= k < rem.len() ==> (#[trigger] rem[k]).0 == cels[k].0 && *rem[k].1 == cels[k].1
+}
+impl CelsData {
+    #[verifier::external_body]
+    pub fn frame_cels(&self, frame_id: u16) -> (r: FrameCels<'_>)
+        requires (frame_id as int) < self.data.len(),
+        ensures fc_matches(frame_cels_rem(r), cels_of(self.data[frame_id as int]@)),
+    { unimplemented!() }
+}
+
+/// R-pre: what CelsData::validate / TilesetsById::validate / LayersData::validate establish for one non-linked cel
+pub open spec fn content_ok(f: &AsepriteFile, c: &RawCel) -> bool {
+    &&& (c.data.layer_index as int) < f.layers.layers.len()
+    &&& match c.content {
+        CelContent::Raw(ic) => ic.pixels.rgba().len() == (ic.size.width as int) * (ic.size.height as int),
+        CelContent::Tilemap(tm) => match f.layers.layers[c.data.layer_index as int].layer_type {
+            LayerType::Tilemap(id) => {
+                &&& f.tilesets.map().dom().contains(id)
+                &&& f.tilesets.map()[id].pixels is Some
+                &&& tilemap_wf(&tm)
+                &&& tiles_in_tileset(&tm, &f.tilesets.map()[id], f.tilesets.map()[id].pixels->0.rgba().len() as int)
+            },
+            _ => false,
+        },
+        CelContent::Linked(fr) => true,
+    }
+}
+/// ... and for any cel: a link stays inside the frame table and never points at another link
+pub open spec fn cel_ok(f: &AsepriteFile, c: &RawCel) -> bool {
+    &&& content_ok(f, c)
+    &&& match c.content {
+        CelContent::Linked(fr) => (fr as int) < f.framedata.data.len() && match f.framedata.at(fr as int, c.data.layer_index as int) {
+            Some(t) => !(t.content is Linked) && content_ok(f, &t),
+            None => true,
+        },
+        _ => true,
+    }
+}
+pub open spec fn file_ok(f: &AsepriteFile) -> bool {
+    &&& f.framedata.data.len() == f.num_frames as int
+    &&& f.layers.layers.len() <= 65535
+    &&& parents_ok(f.layers.layers@, f.layers.parents@)
+    &&& forall|fr: int, l: int| (#[trigger] f.framedata.at(fr, l)) is Some ==> {
+            &&& l < f.layers.layers.len()
+            &&& f.framedata.at(fr, l)->0.data.layer_index as int == l
+            &&& cel_ok(f, &f.framedata.at(fr, l)->0)
+        }
+    &&& forall|fr: int| 0 <= fr < f.framedata.data.len() ==> (#[trigger] f.framedata.data[fr]).len() <= 65536
+}
+/// one non-linked cel over backdrop pixel b
+pub open spec fn content_px(f: &AsepriteFile, c: &RawCel, b: Rgba<u8>, cx: int, cy: int) -> Rgba<u8> {
+    let layer = f.layers.layers[c.data.layer_index as int];
+    match c.content {
+        CelContent::Raw(ic) => raw_px(b, &c.data, &ic.size, ic.pixels.rgba(), layer.blend_mode, layer.opacity, cx, cy),
+        CelContent::Tilemap(tm) => match layer.layer_type {
+            LayerType::Tilemap(id) => tm_px(b, &c.data, &tm, &f.tilesets.map()[id], f.tilesets.map()[id].pixels->0.rgba(), layer.blend_mode, layer.opacity, cx, cy),
+            _ => b,
+        },
+        CelContent::Linked(fr) => b,
+    }
+}
+/// C02/C19: one cel over backdrop pixel b; a linked cel shows the cel it links to (same layer, linked frame)
+pub open spec fn cel_px(f: &AsepriteFile, c: &RawCel, b: Rgba<u8>, cx: int, cy: int) -> Rgba<u8> {
+    match c.content {
+        CelContent::Linked(fr) => match f.framedata.at(fr as int, c.data.layer_index as int) {
+            Some(t) => content_px(f, &t, b, cx, cy),
+            None => b,
+        },
+        _ => content_px(f, c, b, cx, cy),
+    }
+}
+/// C02/C09: the first k cels of a frame (bottom to top), composited over a transparent canvas; cels of layers
+/// that are hidden directly or through an ancestor contribute nothing
+pub open spec fn frame_px(f: &AsepriteFile, cels: Seq<(u32, RawCel)>, k: int, cx: int, cy: int) -> Rgba<u8>
+    decreases k,
+{
+    if k <= 0 {
+        Rgba([0u8, 0u8, 0u8, 0u8])
+    } else {
+        let prev = frame_px(f, cels, k - 1, cx, cy);
+        if spec_visible(f.layers.layers@, f.layers.parents@, cels[k - 1].0 as int) {
+            cel_px(f, &cels[k - 1].1, prev, cx, cy)
+        } else {
+            prev
+        }
+    }
 }
 // @end
